@@ -1,0 +1,25 @@
+//go:build verif
+
+package vxfw
+
+// Contracts for contract-based deductive verification (read by /verif/govc).
+// This file is comment-only; with the build tag off it is not compiled at all.
+
+/*@
+pred SurfaceWF(s *Surface) =
+     len(s.Buffer) == int(s.Size.Width) * int(s.Size.Height)
+
+func NewSurface(width uint16, height uint16, w Widget) Surface
+  ensures C14_size:   result.Size.Width == width && result.Size.Height == height
+  ensures C14_buflen: len(result.Buffer) == int(width) * int(height)
+
+func (s *Surface) WriteCell(col uint16, row uint16, cell vaxis.Cell)
+  requires wf: SurfaceWF(s)
+  ensures C14_wf:   SurfaceWF(s)
+  ensures C14_hit:  (col < s.Size.Width && row < s.Size.Height)
+                      ==> s.Buffer[int(row)*int(s.Size.Width)+int(col)] == cell
+  ensures C14_frame: forall i in 0..len(s.Buffer):
+                      !(col < s.Size.Width && row < s.Size.Height && i == int(row)*int(s.Size.Width)+int(col))
+                      ==> s.Buffer[i] == old(s.Buffer[i])
+  modifies elems(s.Buffer)
+@*/
